@@ -418,8 +418,12 @@ def child_chunk(ctx, chunk):
                 return
 
 
+# the cheap legs run once more under the runner's ambient configurations (python -O, other logger levels)
+AMBIENT_LEGS = True
+
+
 def run(ctx):
-    depth = 3 if ctx.tier == 'quick' else 4
+    depth = 2 if ctx.small else 3 if ctx.tier == 'quick' else 4
     for target, names in (('L1', NAMES + TYPED_NAMES), ('G', NAMES + MODULE_NAMES + TYPED_NAMES[:2])):
         h = Harness(target, names)
         r = hbfs.explore(ctx, h, f'target_{target}', max_depth=depth, procs=ctx.procs)
@@ -439,6 +443,8 @@ def run(ctx):
             ctx.report(case, v)
             return
     ctx.leg('blind', cases=len(blind), names=len(blind) // 4)
+    if ctx.small:
+        return
     for case in churn_cases():
         ctx.traces += 1
         ctx.states += case['rounds']
